@@ -8,10 +8,10 @@ from __future__ import annotations
 import ast
 from typing import Any, Dict, FrozenSet, List, Optional, Set, Tuple
 
-from vlib import source
+from vlib import match, source
 from vlib.cfg import CFG, Node, own_calls, own_exprs
 from vlib.flow import UNKNOWN, eval_const, forward, specialise
-from vlib.source import AnalysisError, call_name, dotted, short
+from vlib.source import AnalysisError, call_name, dotted, last_attr, short
 
 FLOWIR = "python/experiment/model/frontends/flowir.py"
 CONF = "python/experiment/model/conf.py"
@@ -745,6 +745,9 @@ def run(ctx) -> None:
              "the store and the return is the result rebound, written into or passed to a mutator")
     ctx.rule("C08.R4b-pattern", "invalidation patterns agree with the cache label format")
     ctx.rule("C08.R5-external", "no code outside flowir.py writes FlowIRConcrete's storage or cache directly")
+    ctx.rule("C08.R10-clear-then-fill-cannot-fail-in-between", "a mutator that empties a stored object and refills it from a caller's argument "
+             "(X.clear(); X.update(arg)) either invalidates before the clear or has converted the argument (dict(..), deep_copy(..)) before "
+             "it: if the refill raises, the description is already changed and the invalidation that follows it is never reached")
     ctx.rule("C08.R6-readset", "regions read by get_component_configuration are exactly the regions treated as relevant")
     ctx.assume("aliases stored outside the analysed function (object attributes, containers passed to other "
                "modules) are not tracked; such escapes are listed under coverage.information")
@@ -755,6 +758,35 @@ def run(ctx) -> None:
 
     an = Analysis(ctx)
     mod = an.mod
+
+    # ---- R10: clear-then-fill ------------------------------------------------------------
+    n10 = 0
+    for mname, f in an.methods.items():
+        params = {a.arg for a in f.args.args} - {"self"}
+        body = [st for st in ast.walk(f) if isinstance(st, ast.Expr) and isinstance(st.value, ast.Call)]
+        clears = [st for st in body if last_attr(st.value) == "clear" and isinstance(st.value.func.value, ast.Name)]
+        for cl in clears:
+            obj = cl.value.func.value.id
+            fills = [st for st in body if last_attr(st.value) == "update" and isinstance(st.value.func.value, ast.Name)
+                     and st.value.func.value.id == obj and st.lineno > cl.lineno and st.value.args]
+            for fl in fills:
+                arg = fl.value.args[0]
+                n10 += 1
+                ctx.analysed(f)
+                raw_param = isinstance(arg, ast.Name) and arg.id in params
+                converted = isinstance(arg, ast.Name) and not raw_param and any(
+                    isinstance(v, ast.Call) and (call_name(v) or "").split(".")[-1] in ("dict", "deep_copy", "deepcopy", "copy")
+                    for v in match.assigned_value(f, arg.id)) and all(
+                    a_.lineno < cl.lineno for a_ in ast.walk(f) if isinstance(a_, ast.Assign) and any(isinstance(t, ast.Name) and t.id == arg.id for t in a_.targets))
+                inv_before = any(isinstance(st.value, ast.Call) and "invalidate" in (last_attr(st.value) or "") and st.lineno < cl.lineno for st in body)
+                ok = converted or inv_before
+                ctx.ob("C08.R10-clear-then-fill-cannot-fail-in-between", fl.value, ok,
+                       "%s: the replacement is converted before the stored object is emptied (or the cache is invalidated first)" % mname if ok else
+                       "%s empties the stored object and then refills it with %s.update(%s) straight from the caller's argument: "
+                       "update_component(id, None) raises TypeError after the clear, the description holds an empty component and the "
+                       "cache - invalidated only after the refill - keeps answering with the old configuration" % (mname, obj, short(arg, 30)),
+                       construct="%s: %s.clear(); %s.update(%s)" % (mname, obj, obj, short(arg, 30)))
+    ctx.floor("C08.R10-clear-then-fill-cannot-fail-in-between", n10, 1, "clear-then-update sequences in FlowIRConcrete mutators")
 
     # ---- R6: read set of get_component_configuration ------------------------------------
     closure: List[str] = []
